@@ -23,7 +23,7 @@ NAMES = ["a", "b", "c", "d", "e", "f_g", "h", "pop", "copy", "_inc", "__x",
 # "pop" / "copy" collide with dict methods: the instance attribute must still
 # be the strategy.  (Names the harness itself calls - keys, key2keys,
 # value2keys, strategy, default - are not used as strategy names.)
-N_STRATS = 7
+N_STRATS = 9      # the last two are not callable (a number, a string)
 
 
 class KeyTuple(tuple):
@@ -71,6 +71,9 @@ def make_strats():
     return ("fn", 6, args, tuple(sorted(kwargs.items())))
   fn5._tag, fn6._tag = "fn5", "fn6"
   out += [fn5, fn6]
+  # strategies need not be callable to be stored, grouped and to become the
+  # default (only calling the dictionary needs a callable default)
+  out += [41, "not-callable"]
   return out
 
 
@@ -530,6 +533,8 @@ class C15(Property):
         names = NAMES[op[1]] if name == "set" else \
           tuple(NAMES[n] for n in op[1])
         f = strats[op[2]]
+        if name == "strategy" and not callable(f):
+          name = "sett"       # the decorator route is for functions
         try:
           if name == "strategy":
             ret = sd.strategy(*names, **({"keep_name": True} if op[3]
@@ -598,7 +603,7 @@ class C15(Property):
         self.dirty.add(nm)
         probes.add("attribute-overwritten-by-hand")
       elif name == "call":
-        if m.default is not m.NO_DEFAULT:
+        if m.default is not m.NO_DEFAULT and callable(m.default):
           args = tuple(range(op[1]))
           # keyword arguments go to the default as well (also ones named
           # like parameters of the dictionary's own methods)
@@ -665,6 +670,8 @@ class C15(Property):
         raise _Mismatch("model-mismatch", "default",
                         "sd.default = %r, model %r after %s"
                         % (dflt, m.default, after))
+      if not callable(m.default):
+        return
       got = sd(1, 2)
       if got != m.default(1, 2):
         raise _Mismatch("model-mismatch", "call",
